@@ -117,6 +117,13 @@ Example C02_code_shape :
   collect_send_early_branch && take_loop_bound = true.
 Proof. vm_compute. reflexivity. Qed.
 
+(* No loss between the decision and the transmission (source facts; see Proofs/CollectorRef.v): every decide
+   site sends what it decided, `send` enqueues with a plain blocking channel send and returns early only for
+   already-sent or dropped traces, `sendTraces` consumes the queue until it is closed. *)
+Theorem C02_decided_traces_cannot_be_discarded_in_source : send_path_lossless = true.
+Proof. exact send_path_lossless_holds. Qed.
+Print Assumptions C02_decided_traces_cannot_be_discarded_in_source.
+
 (* Non-vacuity: a kept trace with a late span, a dropped trace with a late span, an ejection during
    a backlog, unique span ids; outputs have no duplicates and the buffer drains. *)
 Definition ex_sampler (ver : N) (spans : list span) : bool := negb (existsb (fun s => N.eqb (s_cls s) 1) spans).
